@@ -58,6 +58,16 @@ except TypeError:
 self.nodetype[o] = "S"
 return o
 '''),
+    "HPowerLit": (["self", "o", "base", "exponent"], None, '''
+o = self.reuse_if_untouched(o, base, exponent)
+if isinstance(exponent, CLS):
+    exponent = float(exponent)
+    if self.nodetype[base] == "S" and int(exponent) == exponent:
+        self.nodetype[o] = "S"
+        return o
+self.nodetype[o] = "S"
+return o
+'''),
     "HTerminal": (["self", "term"], "ops", '''
 if isinstance(term, CLS):
     self.nodetype[term] = "S"
@@ -166,6 +176,10 @@ def classify(fn):
                 return ("HConst", s[0])
             if kind == "HPower":
                 return ("HPower", s[0], s[1], s[2])
+            if kind == "HPowerLit":
+                if sorted(nrm.classes[0]) != ["RealValue", "Zero"]:
+                    raise TieBroken(f"handler {fn.name}: literal-exponent test on {nrm.classes[0]}")
+                return ("HPowerLit", s[0], s[1], s[2])
             if kind == "HTerminal":
                 return ("HTerminal", tuple(nrm.classes[0]), s[0], s[1])
             if kind == "HIndexed":
@@ -467,6 +481,7 @@ class Skip(Exception):
 
 ORDERING = (C.LT, C.GT, C.LE, C.GE, C.MinValue, C.MaxValue)
 PARTIAL_FNS = (C.Ln, C.Acos, C.Asin, C.BesselFunction)
+KNOWN_CLASS_ACTIVE = True     # False once the source types ln/acos/asin/Bessel complex (finding fixed)
 
 
 class Valuation:
@@ -706,7 +721,7 @@ def oracle_complex(inp, out, seed, trials=6):
                 hits.append({"kind": "complex-comparison-accepted", "node": str(node)[:200],
                              "operand": str(op)[:200], "operand_value": repr(v),
                              "valuation": {str(k): repr(x) for k, x in val.vals.items()},
-                             "known_class": subtree_has(op, PARTIAL_FNS)})
+                             "known_class": KNOWN_CLASS_ACTIVE and subtree_has(op, PARTIAL_FNS)})
         if hits:
             # prefer a site that is not explained by the known finding (ln/acos/asin/Bessel typed real)
             probs.append(next((h for h in hits if not h["known_class"]), hits[0]))
@@ -796,7 +811,9 @@ def small_scope_complex(run_complex):
     x = ufl.SpatialCoordinate(m)
     v, vv, f, c = uflgen.arg(0), uflgen.arg(1, (2,)), uflgen.coef(), uflgen.const()
     operands = [(v, x[0]), (f, v), (v, c), (2j * abs(v), x[1]), (f ** 2, v), (v ** 0.5, v), (abs(f), ufl.imag(f)),
-                (ufl.sqrt(v), x[0]), (v * x[0] + 1, 2.0)]
+                (ufl.sqrt(v), x[0]), (v * x[0] + 1, 2.0),
+                # operands in the class of the known finding (reported only when that finding is fixed/inactive)
+                (ufl.ln(x[0]), v), (ufl.acos(3 * x[0]), v), (ufl.asin(3 * v), x[1]), (ufl.bessel_Y(1, x[0]), v)]
     sites = []
     for a, b in operands:
         sites.append(lambda a=a, b=b: ufl.conditional(ufl.lt(a, b), v, 2 * v))
